@@ -193,15 +193,31 @@ def i4(ctx, rid):
     if err_tg is None:
         ctx.bad(rid, key, c.where(), 'the result of index.load is not tested')
     else:
-        clears = [x.bb for x in f.calls if x.name == 'clear' and any('IndexStruct' in t for t in prog.resolve(x))]
-        regen = [x for x in f.calls if x.name == 'try_regenerate_index']
-        rok = [core.ok_block(f, x) for x in regen]
-        rok = [x for x in rok if x is not None]
+        # helper-transparent: clear() and the successful regeneration may sit in a (sync or async) helper
+        S_clear = core.Summ(prog, lambda x: x.name == 'clear' and any('IndexStruct' in t for t in prog.resolve(x)), need_ok=False)
+        S_regen = core.Summ(prog, lambda x: x.name == 'try_regenerate_index')
+        ev_clear = set(S_clear.events(f))
+        ev_regen = set(S_regen.events(f))
         exits = [bb for (bb, k, _) in core.exit_defs(f) if k in ('ok', 'fwd', 'val') and bb in f.reachable()]
-        r1 = f.reach_from([err_tg], avoid_exit=clears)
-        r2 = f.reach_from([err_tg], avoid_enter=rok)
-        order_ok = all(x.bb not in f.reach_from([err_tg], avoid_exit=clears) for x in regen)
-        if any(e in r1 for e in exits) or any(e in r2 for e in exits) or not order_ok or not clears or not rok:
+        r1 = f.reach_from([err_tg], avoid_enter=ev_clear)
+        r2 = f.reach_from([err_tg], avoid_enter=ev_regen)
+
+        def ordered(g, start, depth=3):
+            """every regeneration reachable from `start` in g happens after a clear()"""
+            clr = set(S_clear.events(g))
+            free = g.reach_from([start], avoid_enter=clr)
+            for x in g.calls:
+                if x.bb not in g.reachable() or x.bb not in free:
+                    continue
+                if x.name == 'try_regenerate_index':
+                    return False
+                for t in prog.resolve(x):
+                    h = prog.body_of(t) if t in prog.fns else None
+                    if h is not None and h.id != g.id and S_regen.must(t):
+                        if depth <= 0 or not ordered(h, 0, depth - 1):
+                            return False
+            return True
+        if any(e in r1 for e in exits) or any(e in r2 for e in exits) or not ordered(f, err_tg) or not ev_clear or not ev_regen:
             ctx.bad(rid, key, f.where(err_tg), 'after a failed index load an ok-return is reachable without clear() followed by a successful regeneration from the blob')
         else:
             ctx.ok(rid, key, f.where(err_tg), 'Err edge -> clear() -> try_regenerate_index ok -> return')
